@@ -2184,7 +2184,7 @@ def _pack_layout(layout):
 
     # Project indexed arrays
     elif isinstance(layout, ak._util.indexedtypes):
-        return layout.project()
+        return _pack_layout(layout.project())
 
     # ListArray performs both ordering and resizing
     elif isinstance(
@@ -2289,7 +2289,7 @@ def _pack_layout(layout):
         layout = layout.simplify()
 
         if not isinstance(ak.type(layout.content), ak.types.PrimitiveType):
-            return layout.toIndexedOptionArray64()
+            return _pack_layout(layout.toIndexedOptionArray64())
 
         return ak.layout.BitMaskedArray(
             layout.mask,
@@ -2306,7 +2306,7 @@ def _pack_layout(layout):
         layout = layout.simplify()
 
         if not isinstance(ak.type(layout.content), ak.types.PrimitiveType):
-            return layout.toIndexedOptionArray64()
+            return _pack_layout(layout.toIndexedOptionArray64())
 
         return ak.layout.ByteMaskedArray(
             layout.mask,
